@@ -56,6 +56,10 @@ def replaceErr {α} (m : GoM α) (e : GoErr) : GoM α :=
   | .error (.err _) => .error e
   | .error other => .error other
 
+/-- `copy(dst[:], src)` for a fixed-size array `dst`: its first `min(len dst, len src)` bytes are replaced, its length stays -/
+def copyInto (dst src : List UInt8) : List UInt8 :=
+  src.take dst.length ++ dst.drop src.length
+
 /-- `*p` -/
 def deref {α} : Option α → GoM α
   | some a => pure a
